@@ -601,14 +601,16 @@ func (e *engine) eval() error {
 					}
 				}
 			}
+			// The new delta must be part of the store before the next round joins
+			// delta rules against it.
+			e.deltaStore = newDeltaStore
+			e.temporalDeltaStore = newTemporalDeltaStore
 			if err := e.mergeDelta(); err != nil {
 				return err
 			}
 			if e.options.totalFactLimit > 0 && e.store.EstimateFactCount() > e.options.totalFactLimit {
 				return fmt.Errorf("fact size limit reached %d > %d", e.store.EstimateFactCount(), e.options.totalFactLimit)
 			}
-			e.deltaStore = newDeltaStore
-			e.temporalDeltaStore = newTemporalDeltaStore
 			if !incrementalFactAdded {
 				break
 			}
